@@ -424,6 +424,7 @@ pub fn execute_ct(exe: &Path, sc: &DScenario, dir: &Path) -> Vec<DFinding> {
             fsize_mode: None,
             prelude: vec![],
             lex_probe: Some(probe.clone()),
+            src_dir_mode: None,
         };
         // Every other process builds a sibling first, as a build.rs with several grammars does:
         // the same sources with another storage type and a case-insensitive lexer, to other
